@@ -1,5 +1,5 @@
 """C07 — the floating-point LP and the rational LP never drift apart (structural clauses)."""
-from engine import render, strip, Graph, Assume, MustSummaries, param_call
+from engine import render, strip, Graph, Assume, MustSummaries, param_call, must, reachable_events, case_arm_nodes, decision_table
 from facts import AnalysisBroken, CALL_KINDS
 import modifiers as M
 
@@ -13,65 +13,6 @@ EXPLANATION = (
     "_rangeTypeRational have the same decision table; R07.5 the range-type arrays are only read where a rational LP exists; "
     "R07.6 the permutation removals remap the range types with the same permutation. NOT decided: exactness of Rational(double), "
     "that SPxLPBase<Rational>::operator=(SPxLPBase<double>) copies every coefficient, anything about values at run time.")
-
-
-def loop_hit(fn, pred):
-    """ids of loop statements whose subtree contains a node satisfying pred"""
-    out = set()
-    for n in fn.nodes:
-        if n.k in ('ForStmt', 'WhileStmt', 'DoStmt', 'CXXForRangeStmt'):
-            if any(pred(x) for x in n.walk()):
-                out.add(n.i)
-    return out
-
-
-def must(fn, assume, pred, loops=True):
-    g = Graph(fn, assume)
-    if loops:
-        lh = loop_hit(fn, pred)
-        nodes = fn.nodes
-
-        def p2(n):
-            return pred(n)
-        hit_loop_blocks = set(b.id for b in g.blocks.values() if b.t in lh)
-        ok, path = must_pass_blocks(g, g.blocks_with(pred) | hit_loop_blocks)
-    else:
-        ok, path = g.must_pass(pred)
-    return ok, (g.path_lines(path) if path else None), g
-
-
-def must_pass_blocks(g, hit):
-    start, to = g.entry, g.exit
-    if start in hit:
-        return True, None
-    prev = {start: None}
-    q = [start]
-    while q:
-        b = q.pop(0)
-        if b == to:
-            path = []
-            while b is not None:
-                path.append(b)
-                b = prev[b]
-            return False, path[::-1]
-        for s in g.succ[b]:
-            if s not in prev and s not in hit:
-                prev[s] = b
-                q.append(s)
-    return True, None
-
-
-def reachable_events(fn, assume, pred):
-    """nodes satisfying pred that lie in blocks reachable from the entry under the assumption"""
-    g = Graph(fn, assume)
-    r = g.reach(g.entry)
-    out = []
-    nodes = fn.nodes
-    for b in r:
-        for e in g.blocks[b].e:
-            if pred(nodes[e]):
-                out.append(nodes[e])
-    return out
 
 
 def run(fb, rep, tier):
@@ -463,40 +404,6 @@ def r07_3(fb, rep):
         rep.check(any(M.is_this_call(n, '_recomputeRangeTypesRational') or M.is_this_call(n, '_recomputeRangeTypesReal') for n in arm) or
                   any(M.is_this_call(n, '_recomputeRangeTypesRational') for n in f.nodes),
                   'R07.3', 'setRealParam|INFTY|recompute', f.where(), 'range types re-derived when infinity changes', 'changing INFTY leaves the range types stale')
-
-
-def case_arm_nodes(f, case):
-    """all nodes executed in a switch arm: the case's sub-statement and the following sibling statements up to the next
-    case/default label of the same compound"""
-    out = list(case.walk())
-    par = case.parent
-    if par is not None and par.k == 'CompoundStmt':
-        ks = par.kids
-        idx = [k.i for k in ks].index(case.i)
-        for k in ks[idx + 1:]:
-            if k.k in ('CaseStmt', 'DefaultStmt'):
-                break
-            out.extend(k.walk())
-    # nested fallthrough: case A: case B: stmt  -> the sub statement is another CaseStmt (already walked)
-    return out
-
-
-def decision_table(fn):
-    """for a function that is an if-chain returning enumerators: list of (rendered condition, returned enumerator)"""
-    out = []
-    for n in fn.nodes:
-        if n.k == 'ReturnStmt' and n.c:
-            v = strip(n.kids[0])
-            conds = []
-            for a in fn.ancestors(n):
-                if a.k == 'IfStmt':
-                    c = a.kid('cond')
-                    # which branch?
-                    th = a.kid('then')
-                    inthen = th is not None and any(x.i == n.i for x in th.walk())
-                    conds.append(('' if inthen else '!') + render(c))
-            out.append((tuple(conds), render(v)))
-    return out
 
 
 def r07_4(fb, rep):
